@@ -146,6 +146,9 @@ func (w *walker) walk(v reflect.Value, path string, depth int) {
 			w.walk(v.Field(i), t.Name()+"."+f.Name, depth+1)
 		}
 	case reflect.Slice:
+		if t.Name() != "" {
+			path = t.Name() // a named container is one position wherever it occurs (it may contain itself)
+		}
 		if t.Elem().Kind() == reflect.Uint8 && t.Elem() == reflect.TypeOf(byte(0)) {
 			w.notePos(path+"[]", v.Len() > 0)
 			return
@@ -159,6 +162,9 @@ func (w *walker) walk(v reflect.Value, path string, depth int) {
 			w.walk(v.Index(i), path+"[]", depth+1)
 		}
 	case reflect.Map:
+		if t.Name() != "" {
+			path = t.Name()
+		}
 		w.notePos(path+"{}", v.Len() > 0)
 		iter := v.MapRange()
 		for iter.Next() {
